@@ -893,6 +893,29 @@ def run_presel(case, drv):
 
 
 # ---------------------------------------------------------------------------------------------------------------------
+# exhaustive small scope (thorough tier): every combination of restriction sources around an amplifier
+# ---------------------------------------------------------------------------------------------------------------------
+
+def exhaustive():
+    def vg(name, allowed, band=None):
+        e = {'type_variety': name, 'type_def': 'variable_gain', 'gain_flatmax': 26, 'gain_min': 15, 'p_max': 23,
+             'nf_min': 6, 'nf_max': 10, 'out_voa_auto': False, 'allowed_for_design': allowed}
+        if band:
+            e['f_min'], e['f_max'] = float(band[0]), float(band[1])
+        return e
+    entries = [vg('a0', True), vg('a1', False), vg('a2', True, (192_250_000_000_000, 196_150_000_000_000)),
+               vg('a3', False, (amplib.L_FMIN, amplib.L_FMAX))]
+    for pos in ('booster', 'preamp', 'inline', 'between'):
+        for tv in ('', 'a1'):
+            for vl in (None, [], ['a1'], ['a2', 'a3']):
+                for bl in ([], ['a0', 'a2']):
+                    for pl in ([], ['a1'], ['a3']):
+                        for band in ((191_300_000_000_000, 196_100_000_000_000), (192_300_000_000_000, 196_000_000_000_000)):
+                            yield {'kind': 'restr', 'edfa': entries, 'multi': False, 'pos': pos, 'type_variety': tv,
+                                   'variety_list': vl, 'booster_list': bl, 'preamp_list': pl, 'bands': [list(band)]}
+
+
+# ---------------------------------------------------------------------------------------------------------------------
 # shrinking
 # ---------------------------------------------------------------------------------------------------------------------
 
